@@ -221,8 +221,8 @@ func genNegHeader(r *hx.Rand, kind int) (string, bool) {
 	switch r.Intn(30) {
 	case 0:
 		n = 0
-	case 1:
-		n = r.Range(15, 18) // around the 16 cells of the parse arena
+	case 1, 4:
+		n = hx.Pick(r, []int{15, 16, 16, 16, 17, 18}) // around the 16 cells of the parse arena, mostly exactly 16
 	case 2:
 		n = r.Range(6, 12)
 	case 3:
